@@ -249,7 +249,12 @@ func VerifH_ws_stream() {
 			}
 		}
 		vals = append(vals, v)
-		stream = append(stream, vfClientFrame(1, []byte(`{"g":"`+v+`"}`))...)
+		op := byte(1)
+		if vfBool() {
+			op = 2 // a data message sent as a binary frame is a message all the same
+			vfCover("binary-frame")
+		}
+		stream = append(stream, vfClientFrame(op, []byte(`{"g":"`+v+`"}`))...)
 	}
 	stream = append(stream, vfClientFrame(8, nil)...)
 	conn := &vfConn{in: stream}
